@@ -171,6 +171,11 @@ class _Sites(ast.NodeVisitor):
                     and isinstance(node.left, ast.Name):
                 self._add("none", node.left.id, node, own_guard=("handled", "None handled"))
 
+    def visit_Attribute(self, node):
+        self.generic_visit(node)
+        if isinstance(node.value, ast.Name) and node.value.id == "H5Reader" and self.fname.startswith("Workspace."):
+            self._add("ref", "H5Reader." + node.attr, node, own_guard=("handled", "reader function used here"))
+
     def visit_For(self, node):
         it = node.iter
         if isinstance(it, ast.Call) and isinstance(it.func, ast.Attribute) and it.func.attr == "items" and _h5ish(it.func.value) \
